@@ -14,34 +14,40 @@
 (* A digraph is a set E of pairs <<a, b>> ("a depends on b") over a node   *)
 (* set N.                                                                  *)
 (***************************************************************************)
-EXTENDS Naturals, Sequences, FiniteSets
+EXTENDS Naturals, Sequences, FiniteSets, TLC
 
 SeqToSet(s) == {s[k] : k \in DOMAIN s}
 
-RECURSIVE SortedSeq(_)
+(* the elements of a finite set of numbers in increasing order *)
 SortedSeq(S) ==
-    IF S = {} THEN <<>>
-    ELSE LET m == CHOOSE x \in S : \A y \in S : x <= y
-         IN  <<m>> \o SortedSeq(S \ {m})
+    CHOOSE q \in {TLCEval([k \in 1 .. Cardinality(T) |-> CHOOSE x \in T : Cardinality({y \in T : y < x}) = k - 1]) :
+                     T \in {TLCEval(S)}} : TRUE
 
 ---------------------------------------------------------------------------
 (* Reachability, cycles, strongly connected components                     *)
 
 Succ(E, a) == {e[2] : e \in {x \in E : x[1] = a}}
 
+(* NOTE for TLC: operator arguments and LET definitions are evaluated by name
+   (again at every use), so anything that is used more than once and is not
+   trivially cheap is bound by a quantifier / set constructor over a
+   singleton set, which evaluates it exactly once; function and set
+   constructors are lazy objects as well, TLCEval (the identity) makes them
+   explicit.                                                                *)
 RECURSIVE ReachFrom(_, _, _)
 ReachFrom(E, frontier, seen) ==
-    LET new == (UNION {Succ(E, a) : a \in frontier}) \ seen
-    IN  IF new = {} THEN seen ELSE ReachFrom(E, new, seen \cup new)
+    IF frontier = {} THEN seen
+    ELSE UNION {ReachFrom(E, new, seen \cup new) :
+                   new \in {TLCEval((UNION {Succ(E, a) : a \in frontier}) \ seen)}}
 
 (* nodes reachable from a by a path of at least one edge *)
 Reach(E, a) == ReachFrom(E, {a}, {})
 
 (* "depends on itself through references" *)
-OnCycle(N, E) == {a \in N : a \in Reach(E, a)}
+OnCycle(N, E) == TLCEval({a \in N : a \in Reach(E, a)})
 HasCycle(N, E) == OnCycle(N, E) # {}
 
-SCCOf(E, a) == {a} \cup {b \in Reach(E, a) : a \in Reach(E, b)}
+SCCOf(E, a) == TLCEval({a} \cup {b \in Reach(E, a) : a \in Reach(E, b)})
 (* components with more than one node, or one node with a self edge *)
 NontrivialSCCs(N, E) == {SCCOf(E, a) : a \in OnCycle(N, E)}
 
@@ -55,8 +61,8 @@ HasRanking(N, E) ==
        graph and gets stuck on a cyclic one                                *)
 RECURSIVE Peel(_, _)
 Peel(N, E) ==
-    LET sinks == {a \in N : Succ(E, a) \cap N = {}}
-    IN  IF sinks = {} THEN N ELSE Peel(N \ sinks, E)
+    UNION {IF sinks = {} THEN M ELSE Peel(M \ sinks, E) :
+              M \in {TLCEval(N)}, sinks \in {TLCEval({a \in N : Succ(E, a) \cap N = {}})}}
 HasCycleByPeeling(N, E) == Peel(N, E) # {}
 
 ---------------------------------------------------------------------------
@@ -120,9 +126,9 @@ PrevPhys(S, i) ==
    previous field's start + size                                           *)
 RECURSIVE LocMentions(_, _)
 LocMentions(S, i) ==
-    LET nd == S.nodes[i]
-    IN  SeqToSet(nd.start) \cup SeqToSet(nd.size)
-        \cup (IF nd.next THEN LocMentions(S, PrevPhys(S, i)) ELSE {})
+    UNION {SeqToSet(nd.start) \cup SeqToSet(nd.size)
+           \cup (IF nd.next THEN UNION {LocMentions(S, j) : j \in {PrevPhys(S, i)}} ELSE {}) :
+              nd \in {S.nodes[i]}}
 
 Mentions(S, i) ==
     IF i \in 1 .. S.n
@@ -136,15 +142,15 @@ Mentions(S, i) ==
          UNION {LocMentions(S, j) \cup SeqToSet(S.nodes[j].cond) : j \in {k \in 1 .. S.n : IsPhys(S, k)}}
     ELSE {SizeId(S)}   (* $max_/$min_size_in_bytes are bounds of $size_in_bytes *)
 
-DependsOn(S) == UNION {{<<i, j>> : j \in Mentions(S, i)} : i \in AllIds(S)}
+DependsOn(S) == TLCEval(UNION {{<<i, j>> : j \in Mentions(S, i)} : i \in AllIds(S)})
 
 ---------------------------------------------------------------------------
 (* Enum values: node i is a value whose expression mentions value[i]      *)
-PlainGraph(S) == UNION {{<<i, j>> : j \in SeqToSet(S.nodes[i].value)} : i \in 1 .. S.n}
+PlainGraph(S) == TLCEval(UNION {{<<i, j>> : j \in SeqToSet(S.nodes[i].value)} : i \in 1 .. S.n})
 
 (* Module imports: node i is a file, value = the files it imports; node 1 is
    the file given to the compiler.  Only files reachable from it are read. *)
-Loaded(S) == {1} \cup Reach(PlainGraph(S), 1)
-ImportGraph(S) == {e \in PlainGraph(S) : e[1] \in Loaded(S)}
+Loaded(S) == TLCEval({1} \cup Reach(PlainGraph(S), 1))
+ImportGraph(S) == UNION {TLCEval({e \in G : e[1] \in L}) : G \in {PlainGraph(S)}, L \in {Loaded(S)}}
 
 =============================================================================
